@@ -65,6 +65,8 @@ def run(ctx, which="C03"):
     # ---- jobs drawn from LARGE non-uniform blocks (more than 12 idle paths with unequal weights: the probability matrix is the
     # Monte-Carlo estimate of REPEX_state.random_prob): the real pick() on a real REPEX_state, the statement on every job
     big = [(m, 100 * m + r, 3) for m in ((13, 14, 15) if ctx.tier == "quick" else (13, 14, 15, 16, 18)) for r in range(1 if ctx.tier == "quick" else 4)]
+    if which != "C03":
+        big = []          # C04 / C05 reuse this function for the system runs only
     nbig = 0
     for bc, (tag, res) in zip(big, H.run_many(RR.big_pick_case, big, jobs=8, timeout=900)):
         ctx.dist(f"big_block_picks:m{bc[0]}")
